@@ -184,8 +184,12 @@ func loadFindings() []Finding {
 	return out
 }
 
-// caseList maps failure key -> (digest, KF id).
-type listed struct{ dig, kf string }
+// caseList maps failure key -> the listed (digest -> KF id) pairs. One key can carry several digests: a runner may
+// report the same (case, sub, API) more than once (a relation evaluated at several offsets), each with its own result.
+type listed struct {
+	kf   string            // KF id of the first listed observation (used for choosing witnesses)
+	digs map[string]string // digest -> KF id
+}
 
 func loadCaseList(prop string) (map[string]listed, string, error) {
 	path := filepath.Join(verifDir, "findings", prop+".cases.gz")
@@ -215,7 +219,13 @@ func loadCaseList(prop string) (map[string]listed, string, error) {
 		if len(parts) != 5 {
 			continue
 		}
-		m[parts[0]+"\t"+parts[1]+"\t"+parts[2]] = listed{parts[3], parts[4]}
+		k := parts[0] + "\t" + parts[1] + "\t" + parts[2]
+		l, ok := m[k]
+		if !ok {
+			l = listed{kf: parts[4], digs: map[string]string{}}
+		}
+		l.digs[parts[3]] = parts[4]
+		m[k] = l
 	}
 	return m, ver, sc.Err()
 }
@@ -476,10 +486,12 @@ func check(propID, tier string, mode int, from, to uint64) int {
 				}
 			}
 		}
-		if l, ok := list[f.Key()]; ok && l.dig == digest(f.Got) {
-			if _, open := openKF[l.kf]; open {
-				kfSeen[l.kf]++
-				continue
+		if l, ok := list[f.Key()]; ok {
+			if kf, ok := l.digs[digest(f.Got)]; ok {
+				if _, open := openKF[kf]; open {
+					kfSeen[kf]++
+					continue
+				}
 			}
 		}
 		viol = append(viol, *f)
